@@ -905,7 +905,10 @@ func runPlan(w *world, path string) {
 		w.reset()
 		for _, s := range sc.Steps {
 			if s.H > len(w.handles) {
-				vt.Fatal("plan scenario %d: step %s refers to handle %d but only %d exist", k, s.Op, s.H, len(w.handles))
+				// an earlier call that the plan expected to produce a handle did not (the trace spec has rejected that
+				// call); the rest of the scenario cannot be executed. Recorded, so that it can never pass silently.
+				w.emit("Abandoned", 1, vt.Ev{"step": s.Op, "h": s.H}, false, false)
+				break
 			}
 			// script: some of the currently unavailable ids first (exercises the redraw loop), then the target
 			scriptFor := func(m int, target uint32) []uint32 {
